@@ -182,3 +182,161 @@ def install_skipnode(reg):
         loops={0: LoopContract("for m_trap in all_minimal_traps", loop, havoc_heap={"sd": ALLF})},
         local_types={"skip_edges": TInt},
     ), nested_in="biobalm._sd_algorithms.expand_minimal_spaces.expand_minimal_spaces")
+
+
+# ====================================================================== expand_to_target (C06, C07, C04, C15)
+def install_target(reg):
+    kn = z3.Const("k", Name)
+
+    def common_sd(c):
+        v, o = c.sd, c.old.sd
+        return [("inv." + nm, g) for nm, g in S.inv(v)] + [("extends_entry_diagram", S.ext(v, o)),
+                                                            ("config_kept", v.cfg_max_motifs_per_node == o.cfg_max_motifs_per_node)]
+
+    def consistent(sp, tg):
+        return z3.Not(z3.Exists([kn], z3.And(indom(sp, kn), indom(tg, kn), sp[kn] != tg[kn])))
+
+    def strictly_inside(sp, tg):
+        return z3.And(z3.ForAll([kn], z3.Implies(indom(tg, kn), z3.And(indom(sp, kn), sp[kn] == tg[kn]))), z3.Not(T.space_eq(sp, tg)))
+
+    def relevant(v, xx, tg):
+        """the node intersects the target without lying strictly inside it: exactly the nodes expand_to_target expands"""
+        return z3.And(consistent(v.space[xx], tg), z3.Not(strictly_inside(v.space[xx], tg)))
+
+    def processed(v, seen, xx, pending, tg):
+        return z3.Implies(z3.And(seen[xx], z3.Not(pending), relevant(v, xx, tg)),
+                          z3.And(v.expanded[xx], z3.ForAll([y], z3.Implies(v.edge[xx][y], seen[y]))))
+
+    def base(c):
+        v, seen = c.sd, c.seen
+        return common_sd(c) + [
+            ("root_seen", seen[0]),
+            ("seen_valid", z3.ForAll([x], z3.Implies(seen[x], S.valid(v, x)))),
+            ("level_seen", z3.ForAll([a], z3.Implies(z3.And(0 <= a, a < LI.len(c.current_level)), seen[LI.at(c.current_level)[a]]))),
+        ]
+
+    def inv0(c):
+        return base(c) + [("next_empty", LI.len(c.next_level) == 0),
+                          ("closed_except_level", z3.ForAll([x], processed(c.sd, c.seen, x, in_list(c.current_level, x), c.target)))]
+
+    def inv1(c):
+        pend = lambda xx: z3.Or(in_list(c.current_level, xx, lo=c.i), in_list(c.next_level, xx))
+        return base(c) + [("next_seen", z3.ForAll([a], z3.Implies(z3.And(0 <= a, a < LI.len(c.next_level)), c.seen[LI.at(c.next_level)[a]]))),
+                          ("closed_except_pending", z3.ForAll([x], processed(c.sd, c.seen, x, pend(x), c.target)))]
+
+    def inv2(c):
+        oi = c.outer(1)["i"]
+        node = c.node
+        pend = lambda xx: z3.Or(in_list(c.current_level, xx, lo=oi + 1), in_list(c.next_level, xx), xx == node)
+        return base(c) + [("next_seen", z3.ForAll([a], z3.Implies(z3.And(0 <= a, a < LI.len(c.next_level)), c.seen[LI.at(c.next_level)[a]]))),
+                          ("closed_except_pending", z3.ForAll([x], processed(c.sd, c.seen, x, pend(x), c.target))),
+                          ("node_is_current", z3.And(0 <= oi, oi < LI.len(c.current_level), LI.at(c.current_level)[oi] == node, c.seen[node], c.sd.expanded[node])),
+                          ("node_successors_listed", z3.ForAll([y], z3.Implies(z3.And(c.sd.edge[node][y], z3.Not(c.seen[y])), in_list(c.successors, y, lo=c.i))))]
+
+    def post(c):
+        v, r = c.sd, c.result
+        return common_sd(c) + [
+            ("true_means_target_region_explored", z3.Implies(r, z3.And(c.seen[0], z3.ForAll([x], processed(v, c.seen, x, z3.BoolVal(False), c.target))))),
+            ("false_only_at_size_limit_with_a_stub", z3.Implies(z3.Not(r), z3.And(
+                z3.Not(OI.is_none(c.size_limit)), v.K >= OI.val(c.size_limit), z3.Exists([x], z3.And(S.valid(v, x), z3.Not(v.expanded[x])))))),
+        ]
+
+    names_common = ["inv." + n for n in inv_names()] + ["extends_entry_diagram", "config_kept"]
+    pick = lambda fn, nm: (lambda c: dict(fn(c))[nm])
+    tr = [("S.ext_transitive", lambda c: S.ext_trans(c.sd, c.head(1).sd, c.old.sd))]
+    reg.add(Contract(
+        "biobalm._sd_algorithms.expand_to_target.expand_to_target",
+        params=[("sd", SD), ("target", TSpace), ("size_limit", OI)], defaults={"size_limit": None}, result_type=TBool,
+        properties=("C06", "C07", "C04", "C15"),
+        requires=[lambda c: S.inv_all(c.sd), lambda c: c.sd.cfg_max_motifs_per_node >= 0],
+        modifies={"sd": ALLF}, may_raise={"RuntimeError": {"modifies": {"sd": ALLF}}},
+        ensures=[(nm, pick(post, nm)) for nm in names_common + ["true_means_target_region_explored", "false_only_at_size_limit_with_a_stub"]],
+        raises={"RuntimeError": [(nm, pick(common_sd, nm)) for nm in names_common]},
+        local_types={"seen": SI, "current_level": LI, "next_level": LI, "level_id": TInt, "successors": LI},
+        loops={0: LoopContract("while len(current_level) > 0", inv0, havoc_heap={"sd": ALLF}),
+               1: LoopContract("for node in current_level", inv1, havoc_heap={"sd": ALLF}, lemmas=tr),
+               2: LoopContract("for s in successors", inv2, havoc_heap={}, lemmas=tr)},
+    ))
+
+
+# ====================================================================== expand_dfs (C02, C03, C04, C15)
+def install_dfs(reg):
+    ST, SE = T.StackT, T.StackEntry
+    OL = TOpt(LI)
+
+    def common_sd(c):
+        v, o = c.sd, c.old.sd
+        return [("inv." + nm, g) for nm, g in S.inv(v)] + [("extends_entry_diagram", S.ext(v, o)),
+                                                            ("config_kept", v.cfg_max_motifs_per_node == o.cfg_max_motifs_per_node)]
+
+    def start(c):
+        arg = c.old.node_id
+        return z3.If(OI.is_none(arg), 0, OI.val(arg))
+
+    def entry_ok(v, seen, ent):
+        """a stack entry (node, remaining successors or None)"""
+        nd, rest = SE.get(ent, 0), SE.get(ent, 1)
+        return z3.And(seen[nd], S.valid(v, nd),
+                      z3.Implies(z3.Not(OL.is_none(rest)), z3.And(
+                          v.expanded[nd], LI.len(OL.val(rest)) >= 0,
+                          z3.ForAll([b], z3.Implies(z3.And(0 <= b, b < LI.len(OL.val(rest))), S.valid(v, LI.at(OL.val(rest))[b]))),
+                          z3.ForAll([y], z3.Implies(z3.And(v.edge[nd][y], z3.Not(seen[y])), T.MemI(OL.val(rest), y))))))
+
+    def closed(v, seen, stack):
+        return z3.ForAll([x], z3.Implies(z3.And(seen[x], z3.Not(T.OnStack(stack, x))),
+                                         z3.And(v.expanded[x], z3.ForAll([y], z3.Implies(v.edge[x][y], seen[y])))))
+
+    def inv0(c):
+        v, seen, stack = c.sd, c.seen, c.stack
+        return common_sd(c) + [
+            ("start_seen", seen[start(c)]),
+            ("seen_valid", z3.ForAll([x], z3.Implies(seen[x], S.valid(v, x)))),
+            ("stack_entries", z3.And(ST.len(stack) >= 0, z3.ForAll([a], z3.Implies(z3.And(0 <= a, a < ST.len(stack)), entry_ok(v, seen, ST.at(stack)[a]))))),
+            ("closed_when_complete", z3.Implies(c.result_is_complete, closed(v, seen, stack))),
+            ("incomplete_only_with_stack_limit", z3.Implies(z3.Not(c.result_is_complete), z3.Not(OI.is_none(c.dfs_stack_limit)))),
+        ]
+
+    def inv1(c):
+        """inner loop dropping already seen successors from the end of the list"""
+        v, seen, stack, node, succ = c.sd, c.seen, c.stack, c.node, c.successors
+        return common_sd(c) + [
+            ("start_seen", seen[start(c)]),
+            ("seen_valid", z3.ForAll([x], z3.Implies(seen[x], S.valid(v, x)))),
+            ("stack_entries", z3.And(ST.len(stack) >= 0, z3.ForAll([a], z3.Implies(z3.And(0 <= a, a < ST.len(stack)), entry_ok(v, seen, ST.at(stack)[a]))))),
+            ("closed_except_node", z3.Implies(c.result_is_complete, z3.ForAll([x], z3.Implies(
+                z3.And(seen[x], z3.Not(T.OnStack(stack, x)), x != node),
+                z3.And(v.expanded[x], z3.ForAll([y], z3.Implies(v.edge[x][y], seen[y]))))))),
+            ("incomplete_only_with_stack_limit", z3.Implies(z3.Not(c.result_is_complete), z3.Not(OI.is_none(c.dfs_stack_limit)))),
+            ("node_pending", z3.And(seen[node], S.valid(v, node), v.expanded[node], LI.len(succ) >= 0,
+                                    z3.ForAll([a], z3.Implies(z3.And(0 <= a, a < LI.len(succ)), S.valid(v, LI.at(succ)[a]))),
+                                    z3.ForAll([y], z3.Implies(z3.And(v.edge[node][y], z3.Not(seen[y])), T.MemI(succ, y))))),
+        ]
+
+    def post(c):
+        v, r = c.sd, c.result
+        return common_sd(c) + [
+            ("true_means_complete", z3.Implies(r, S.ARE(v.edge, v.expanded, start(c)))),
+            ("false_only_for_a_reason", z3.Implies(z3.Not(r), z3.Or(
+                z3.Not(OI.is_none(c.dfs_stack_limit)),
+                z3.And(z3.Not(OI.is_none(c.size_limit)), v.K >= OI.val(c.size_limit),
+                       z3.Exists([x], z3.And(S.valid(v, x), z3.Not(v.expanded[x]))))))),
+        ]
+
+    names_common = ["inv." + n for n in inv_names()] + ["extends_entry_diagram", "config_kept"]
+    pick = lambda fn, nm: (lambda c: dict(fn(c))[nm])
+    tr = [("S.ext_transitive", lambda c: S.ext_trans(c.sd, c.head(0).sd, c.old.sd))]
+    reg.add(Contract(
+        "biobalm._sd_algorithms.expand_dfs.expand_dfs",
+        params=[("sd", SD), ("node_id", OI), ("dfs_stack_limit", OI), ("size_limit", OI)],
+        defaults={"node_id": None, "dfs_stack_limit": None, "size_limit": None}, result_type=TBool,
+        properties=("C02", "C03", "C04", "C15"),
+        requires=[lambda c: S.inv_all(c.sd), lambda c: c.sd.cfg_max_motifs_per_node >= 0,
+                  lambda c: z3.Implies(z3.Not(OI.is_none(c.node_id)), S.valid(c.sd, OI.val(c.node_id)))],
+        modifies={"sd": ALLF}, may_raise={"RuntimeError": {"modifies": {"sd": ALLF}}},
+        ensures=[(nm, pick(post, nm)) for nm in names_common + ["true_means_complete", "false_only_for_a_reason"]],
+        raises={"RuntimeError": [(nm, pick(common_sd, nm)) for nm in names_common]},
+        lemmas=[("def.AllReachableExpanded", lambda c: S.are_intro(c.sd, start(c), c.seen))],
+        local_types={"seen": SI, "stack": ST, "successors": LI, "result_is_complete": TBool, "node": TInt, "node_id": TInt, "s": TInt},
+        loops={0: LoopContract("while len(stack) > 0", inv0, havoc_heap={"sd": ALLF}, local_types={"successors": OL}),
+               1: LoopContract("while len(successors) > 0 and successors[-1] in seen", inv1, havoc_heap={}, lemmas=tr)},
+    ))
